@@ -28,10 +28,15 @@ func C19_sessions() {
 	// oracle for the sequential run
 	late := append(append(append([]byte{}, tok...), tok...), "permessage-deflate="...)
 	vAssert(vAnd(len(wantS) > len(late), vEqBytes(wantS[len(wantS)-len(late):], late)), "sessions.server_handshake_results_observed_late")
-	vAssert(vAnd(len(wantC) >= 4+3, vEqBytes(wantC[:4], []byte("chat"))), "sessions.client_protocol")
-	if len(wantC) >= 7 {
-		vAssert(vEqBytes(wantC[4:7], payload), "sessions.client_payload_on_wire")
+	vTraceBytes("clientobs", wantC)
+	head := []byte("chat[permessage-deflate;client_max_window_bits]10|")
+	vAssert(vAnd(len(wantC) >= len(head)+3, vEqBytes(wantC[:len(head)], head)), "sessions.client_handshake_offer_and_results")
+	if len(wantC) >= len(head)+3 {
+		vAssert(vEqBytes(wantC[len(head):len(head)+3], payload), "sessions.client_payload_on_wire")
 	}
+	// a second session through the same shared dialer observes exactly the same
+	again := vClientSession(payload)
+	vAssert(vEqBytes(again, wantC), "sessions.repeated_session_same_observation")
 	if vSymbolic() {
 		return
 	}
